@@ -139,7 +139,15 @@ Lemma compat_list_eq f e it mn mx v :
   compat (S f) e (SList it mn mx) v =
   match v with
   | VSlice _ _ l => _ <- mapMi (fun i x => seg (idx_seg i) (compat f e it x)) 0 l ;; Ok tt
-  | VPtr _ (Some (VSlice _ _ _)) => Panic "reflect: Len of ptr Value"
+  | VPtr t (Some (VSlice _ _ l)) =>
+      (* D49 (repaired): a pointer to a slice is read through the pointer *)
+      match underlying t with
+      | TPtr te => match kind_of_type te with
+                   | KSlice => _ <- mapMi (fun i x => seg (idx_seg i) (compat f e it x)) 0 l ;; Ok tt
+                   | _ => Err (cerr ERepr)
+                   end
+      | _ => Err (cerr ERepr)
+      end
   | _ => Err (cerr ERepr)
   end.
 Proof. reflexivity. Qed.
